@@ -17,6 +17,22 @@ var Order func(n int, tag string) int
 // given a non-identity order (reach probes for the evidence file).
 var Sites, Permuted, Unordered int64
 
+// The seam's own globals are touched from every task; they are accessed only through
+// //go:norace helpers so that they never show up as (harness-made) races, while the
+// map reads in Entries itself stay instrumented.
+
+//go:norace
+func getOrder() func(int, string) int { return Order }
+
+//go:norace
+func incSites() { Sites++ }
+
+//go:norace
+func incPermuted() { Permuted++ }
+
+//go:norace
+func incUnordered() { Unordered++ }
+
 type Entry[K comparable, V any] struct {
 	K K
 	V V
@@ -107,7 +123,7 @@ func Entries[K comparable, V any](m map[K]V) []Entry[K, V] {
 		idx[i] = i
 	}
 	if !ordered {
-		Unordered++
+		incUnordered()
 		return es // Go's own (random) order: legal, but not controlled
 	}
 	sort.SliceStable(idx, func(a, b int) bool { return keys[idx[a]] < keys[idx[b]] })
@@ -115,19 +131,19 @@ func Entries[K comparable, V any](m map[K]V) []Entry[K, V] {
 	for i, j := range idx {
 		out[i] = es[j]
 	}
-	Sites++
-	if Order != nil {
+	incSites()
+	if order := getOrder(); order != nil {
 		moved := false
 		// Fisher-Yates from the front; a drawn 0 keeps the element in place
 		for i := 0; i < n-1; i++ {
-			j := i + Order(n-i, "maporder")
+			j := i + order(n-i, "maporder")
 			if j != i {
 				out[i], out[j] = out[j], out[i]
 				moved = true
 			}
 		}
 		if moved {
-			Permuted++
+			incPermuted()
 		}
 	}
 	return out
